@@ -67,3 +67,92 @@ func H_C11_rename() {
 	vAssert(!still, "rename: old key gone")
 	vAssertUnchangedSince(mark, "rename: nothing else changed", vEntry(parent, last), vEntry(parent, name))
 }
+
+func init() {
+	vHarnesses["H_C11_set"] = H_C11_set
+	vHarnesses["H_C11_remove"] = H_C11_remove
+}
+
+// vWalkC11 is refParentC11 with the ambiguous region made explicit: listOnWay reports
+// that the walk met a list (list transparency makes "the parent" ambiguous there).
+func vWalkC11(m map[string]interface{}, segs []string) (parent map[string]interface{}, ok bool, listOnWay bool, scalarParent bool) {
+	parent = m
+	for i := 0; i < len(segs)-1; i++ {
+		v, has := parent[segs[i]]
+		if !has {
+			return nil, false, false, false
+		}
+		switch c := v.(type) {
+		case map[string]interface{}:
+			parent = c
+		case []interface{}:
+			return nil, false, true, false
+		default:
+			return nil, false, false, v != nil
+		}
+	}
+	return parent, true, false, false
+}
+
+func H_C11_set() {
+	m := vNondetMap(vSpecC11)
+	nseg := 1 + vChoose(3)
+	segs := make([]string, nseg)
+	for i := range segs {
+		segs[i] = vNondetString(1, 1, "abc")
+	}
+	path := strings.Join(segs, ".")
+	last := segs[nseg-1]
+	val := vNondetValue(vSpec{Depth: 1, Width: 1, Kinds: "msn", KeyAlpha: "ab", KeyMin: 1, KeyMax: 1, StrAlpha: "xy", StrMax: 1})
+
+	parent, ok, listOnWay, _ := vWalkC11(m, segs)
+	vAssume(!listOnWay) // the quantifier ranges over dot-paths through nested maps
+	mark := vMark(m)
+	err := Map(m).SetValueForPath(val, path)
+	if !ok {
+		vCover("refuse")
+		// error or documented no-op, never a modification
+		vAssertUnchangedSince(mark, "set: a set that cannot be applied leaves the Map untouched")
+		return
+	}
+	vCover("apply")
+	vAssert(err == nil, "set: applies below a map parent")
+	nv, has := parent[last]
+	vAssert(has, "set: key present afterwards")
+	vAssert(vSame(nv, val), "set: key holds the new value")
+	got, gerr := Map(m).ValueForPath(path)
+	vAssert(gerr == nil, "set: ValueForPath finds the path afterwards")
+	vAssert(vSame(got, val), "set: ValueForPath returns the new value")
+	vAssertUnchangedSince(mark, "set: nothing else changed", vEntry(parent, last))
+}
+
+func H_C11_remove() {
+	m := vNondetMap(vSpecC11)
+	nseg := 1 + vChoose(3)
+	segs := make([]string, nseg)
+	for i := range segs {
+		segs[i] = vNondetString(1, 1, "abc")
+	}
+	path := strings.Join(segs, ".")
+	last := segs[nseg-1]
+	parent, ok := refParentC11(m, segs)
+	exists := false
+	if ok {
+		_, exists = parent[last]
+	}
+	mark := vMark(m)
+	err := Map(m).Remove(path)
+	if !ok || !exists {
+		vCover("refuse")
+		vAssert(err != nil, "remove: a missing path is an error")
+		vAssertUnchangedSince(mark, "remove: failed remove leaves the Map untouched")
+		return
+	}
+	vCover("apply")
+	vAssert(err == nil, "remove: applies to an existing path")
+	_, still := parent[last]
+	vAssert(!still, "remove: key gone")
+	ex, _ := Map(m).Exists(path)
+	vAssert(!ex, "remove: path ceases to exist")
+	vAssertUnchangedSince(mark, "remove: nothing else changed", vEntry(parent, last))
+}
